@@ -275,15 +275,15 @@ def check_case(case):
         if list(res.keys()) != want_keys:
             v.fail("batch-keys", f"run_games returned keys {list(res.keys())}")
         else:
+            from harness.sut import entry_failed_with, entry_not_solved, entry_solved
             m1, m2 = res["g"]["msg"], res["g_no_prune"]["msg"]
             if p0 == 0:
-                if not (isinstance(m1, str) and m1.startswith("Error while solving the game:") and
-                        NO_SOLUTION in m1.lower()):
+                if not entry_failed_with(res["g"], NO_SOLUTION):
                     v.fail("batch-msg", f"no-solution game: pruned entry says {m1!r}")
-                if m2 != "Game not solved":
+                if not entry_not_solved(res["g_no_prune"]):
                     v.fail("batch-msg", f"no-solution game: unpruned entry says {m2!r}", sig="unpruned")
             elif not undecided0:
-                if m1 != "Game solved" or m2 != "Game solved":
+                if not entry_solved(res["g"]) or not entry_solved(res["g_no_prune"]):
                     v.fail("batch-msg", f"solvable game (value {float(p0):.4g}): messages {m1!r} / {m2!r}", sig="solvable")
                 else:
                     for key in want_keys:
